@@ -145,14 +145,15 @@ class QPoly:
 # {{{ discrete Fourier transform by its definition
 
 def dft(x, sign=1):
-    """F[x]_k = sum_j z^(k j) x_j,  z = exp(-2 i pi sign / n) -- the docstring of fft()."""
+    """F[x]_k = sum_j z^(k j) x_j,  z = exp(-2 i pi sign / n) -- the docstring of fft(); *sign* is
+    any integer."""
     n = len(x)
-    tw = [cmath.exp(-2j * math.pi * sign * m / n) for m in range(n)]
+    root = [cmath.exp(-2j * math.pi * m / n) for m in range(n)]        # exp(-2 i pi / n)**m
     # exact values on the axes (cos/sin of multiples of pi/2 carry 1e-16 dust otherwise)
     for m in range(n):
         if (4 * m) % n == 0:
-            tw[m] = (1, -1j * sign, -1, 1j * sign)[(4 * m) // n]
-    return [sum(tw[(k * j) % n] * complex(x[j]) for j in range(n)) for k in range(n)]
+            root[m] = (1, -1j, -1, 1j)[(4 * m) // n]
+    return [sum(root[(sign * k * j) % n] * complex(x[j]) for j in range(n)) for k in range(n)]
 
 # }}}
 
